@@ -24,7 +24,7 @@ KEYS = ["absent", "right", "wrong", "len23", "nopad", "badsym", "len25", "onepad
 CMODES = ["absent", "0", "1", "2", "3", "4", "5", "-1", "256", "abc", "127"]
 HMODES = ["absent", "0", "1", "2", "3", "abc"]
 NS = ["absent", "n"]
-EXTRAS = ["none", "unknown", "missingarg"]
+EXTRAS = ["none", "unknown", "missingarg", "repeat-input", "repeat-cmode", "repeat-key", "dashdash-stray", "positional"]
 DIMS = [MODES, INS, OUTS, KEYS, CMODES, HMODES, NS, EXTRAS]
 DIMNAMES = ["mode", "in", "out", "key", "cmode", "hmode", "noecho", "extra"]
 
@@ -119,6 +119,16 @@ def make_argv(vec, fx, rundir):
         a += ["-z"]
     elif extra == "missingarg":
         a += ["-i"]
+    elif extra == "repeat-input" and info["in"] and inn != "fifo":  # (a FIFO opened twice blocks in open(2) for ever: the OS, not wencry)   # the same option given twice (same value): outcome undocumented, must not crash or lie
+        a += ["-i", info["in"]]
+    elif extra == "repeat-cmode":
+        a += ["--cmode", "1", "--cmode", "2"] if cm == "absent" else ["--cmode", cm]
+    elif extra == "repeat-key" and info["key"]:
+        a += ["-k", info["key"]]
+    elif extra == "dashdash-stray":
+        a += ["--", "stray-argument"]
+    elif extra == "positional":
+        a += ["stray-argument"]
     return a, info
 
 
@@ -126,7 +136,7 @@ def well_formed(vec):
     mode, inn, out, key, cm, hm, noecho, extra = vec
     if mode in ("none", "e+d", "v+h", "cluster-edv"):
         return False
-    if extra != "none":
+    if extra in ("unknown", "missingarg"):
         return False
     if key in ("len23", "nopad", "badsym", "len25", "onepad"):
         return False
@@ -148,9 +158,14 @@ def well_formed(vec):
     return True
 
 
+UNDOCUMENTED_EXTRAS = ("repeat-input", "repeat-cmode", "repeat-key", "dashdash-stray", "positional")
+
+
 def must_fail(vec):
     """only outcomes the documentation leaves no doubt about"""
     mode, inn, out, key, cm, hm, noecho, extra = vec
+    if extra in UNDOCUMENTED_EXTRAS and well_formed(vec):
+        return False  # repeated options / stray arguments: acceptance is not documented either way
     if mode in ("V", "h") and extra == "none" and key not in ("len23", "nopad", "badsym", "len25", "onepad") and out != "unwritable" and inn != "missing":
         return False
     if not well_formed(vec):
@@ -167,7 +182,7 @@ def must_fail(vec):
 
 def must_succeed(vec):
     mode, inn, out, key, cm, hm, noecho, extra = vec
-    if not well_formed(vec):
+    if not well_formed(vec) or extra in UNDOCUMENTED_EXTRAS:
         return False
     if mode in ("V", "h"):
         return inn in ("absent", "file", "valid", "empty") and cm == "absent" and hm == "absent" and key in ("absent", "right")
@@ -275,7 +290,9 @@ def run_vector(exe, reftool, fx, vec, idx, workroot):
                     effect = (r.returncode == 0)
         if ok and effect is False:
             return ("exit0-without-effect:" + (m or "?"), "exit status 0 but the requested result is not there (%s)" % vname, tail)
-        if (not ok) and effect is True and wf:
+        if (not ok) and effect is True and wf and not (m == "v" and vec[7] in UNDOCUMENTED_EXTRAS):
+            # (for -v the "effect" is a fact about the input, not something the run produced: with a repeated option or a stray
+            #  argument the program may legitimately refuse before verifying anything)
             return ("nonzero-exit-with-effect:" + (m or "?"), "exit status %d although the operation succeeded completely (%s)" % (rc, vname), tail)
         if (not ok) and not (so.strip() or se.strip()):
             return ("silent-failure", "non-zero exit without any diagnostic", tail)
@@ -292,7 +309,7 @@ def first_defect(vec):
     mode, inn, out, key, cm, hm, noecho, extra = vec
     if mode in ("none", "e+d", "v+h", "cluster-edv"):
         return "mode-" + mode
-    if extra != "none":
+    if extra in ("unknown", "missingarg"):
         return "extra-" + extra
     if key in ("len23", "nopad", "badsym", "len25", "onepad"):
         return "key-" + key
